@@ -86,8 +86,10 @@ func (rl *Shell) Readline() (string, error) {
 		// Block and wait for available user input keys.
 		// These might be read on stdin, or already available because
 		// the macro engine has fed some keys in bulk when running one.
-		// If the input is closed or failing, return what we have.
+		// If the input is closed or failing, return what we have,
+		// leaving the cursor below the input line like any other return.
 		if err := core.WaitAvailableKeys(rl.Keys, rl.Config); err != nil {
+			rl.Display.AcceptLine()
 			return string(*rl.line), err
 		}
 
